@@ -108,6 +108,12 @@ func checkC04(c *Check) {
 	actionIDs(c, r)
 	forEachRuntime(c, func(a *aggregator, v *rtView) {
 		rtExecute(a, v)
+		if v.in.Cfg.Bools["Ast"] {
+			// Execute replays the token list: a memo hit must leave exactly the tokens a re-run would
+			if f := v.cl["memoizedResult"]; f != nil {
+				rtMemoReplay(a, v, f)
+			}
+		}
 	})
 }
 
